@@ -1174,7 +1174,7 @@ func (env *Environment) setState(state string) {
 func (env *Environment) subscribeToWfState(taskman *task.Manager) {
 	go func() {
 		wf := env.Workflow()
-		notify := make(chan sm.State)
+		notify := make(chan sm.State, 1) // buffered: a state change arriving between two receives must not be lost
 		subscriptionId := uuid.NewUUID().String()
 		env.wfAdapter.SubscribeToStateChange(subscriptionId, notify)
 		defer env.wfAdapter.UnsubscribeFromStateChange(subscriptionId)
